@@ -221,6 +221,29 @@ Theorem C13_o_option_stdout_only_partial :
 Proof. exact o_option_stdout_only. Qed.
 Print Assumptions C13_o_option_stdout_only_partial.
 
+(* directives inside an included file: resolved against the INCLUDED file (whose name is the include
+   operand resolved against the including file), default name = the included file's name *)
+Theorem C13_included_directive_partial :
+  forall d file_path tape operand including,
+  let inner := resolve_relative_path operand including in
+  let e := emit_directive d file_path tape (included_name operand including) in
+  e_path e = match file_path with
+             | Some p => resolve_relative_path p inner
+             | None => default_path inner
+                         match d with MakeBin | MakeBk0010Rom => Some (s "bin") | MakeRaw => None
+                                    | _ => Some (s "wav") end
+             end.
+Proof. exact included_directive_outputs. Qed.
+Print Assumptions C13_included_directive_partial.
+
+Theorem C13_included_relative_partial :
+  forall d p tape operand including,
+  is_absolute_path operand = false -> is_absolute_path p = false ->
+  e_path (emit_directive d (Some p) tape (included_name operand including)) =
+  normpath (path_join (dirname (normpath (path_join (dirname including) operand))) p).
+Proof. exact included_relative. Qed.
+Print Assumptions C13_included_relative_partial.
+
 (* ------------------------------------------------------------------ non-vacuity *)
 (* 257 x 0xFF sums to 65535: the checksum is 0xFFFF *)
 Example C13_checksum_257_ff : checksum (repeat 255 257) = Ok 65535 /\ zsum (repeat 255 257) = 65535.
@@ -258,4 +281,10 @@ Example C13_dash_file_example :
   o_dest (o_option_output (s "out/-.bin")) = ToFile (s "out/-.bin") /\
   o_dest (o_option_output (s "-.bin")) = ToStdout /\ o_format (o_option_output (s "-.bin")) = FmtBin /\
   o_dest (o_option_output (s "-.a.b")) = ToFile (s "-.a.b").
+Proof. vm_compute. repeat split; reflexivity. Qed.
+
+Example C13_included_example :
+  e_path (emit_directive MakeBin (Some (s "up.bin")) None (included_name (s "lib/part.mac") (s "/w/src/main.mac"))) = s "/w/src/lib/up.bin" /\
+  e_path (emit_directive MakeRaw None None (included_name (s "lib/part.mac") (s "/w/src/main.mac"))) = s "/w/src/lib/part" /\
+  e_path (emit_directive MakeWav (Some (s "../x.wav")) None (included_name (s "sub2/leaf.mac") (included_name (s "lib/part.mac") (s "/w/src/main.mac")))) = s "/w/src/lib/x.wav".
 Proof. vm_compute. repeat split; reflexivity. Qed.
